@@ -52,13 +52,16 @@ def check_case(case):
     d = scratchdir.new("c16")
     try:
         obs = schedcase.run_case(dict(case, worker="sched"), d)
+        if obs.timed_out and obs.max_blocked <= case["k"]:  # inconclusive (C18 owns termination)
+            case["_obs"] = dict(timed_out=True)
+            return []
         case["_obs"] = dict(max_blocked=obs.max_blocked, timeouts=obs.settle_timeouts)
         if obs.max_blocked > case["k"]:
             return [dict(signature="limit-exceeded",
                          observed=dict(k=case["k"], executing_at_once=obs.max_blocked,
                                        blocked_counts=[r[1] for r in obs.releases][:40]),
                          expected=f"<= {case['k']} jobs executing at any instant",
-                         detail=short(obs.exception) if obs.exception else None)]
+                         detail=obs.exception)]
         return []
     finally:
         scratchdir.rm(d)
@@ -87,6 +90,8 @@ def run(sh):
                                                             "width_gt_k" if w > case["k"] else "width_le_k"],
                     raise_unattributed=True)
         obs = case.pop("_obs", {})
+        if obs.get("timed_out"):
+            sh.count("inconclusive_timed_out")
         if obs.get("timeouts"):
             sh.count("settle_timeouts", obs["timeouts"])
 
